@@ -327,6 +327,8 @@ def as_seq(v):
             return SeqV(z3.Empty(IntSeq), 'list')
         us = [z3.Unit(to_int(i)) for i in v.items]
         return SeqV(us[0] if len(us) == 1 else z3.Concat(*us), 'list' if isinstance(v, PyListV) else 'tuple')
+    if isinstance(v, ConstV) and isinstance(v.py, (bytes, str)):
+        return lift_seq_const(v.py)
     return v
 
 
